@@ -7,7 +7,7 @@
 From Coq Require Import List ZArith Bool.
 From LV Require Import Gen.Consts_C03 Gen.Funs_C03 Region.RegionDefs
      Wire.CountsModel Wire.CountsProofs Wire.CapsModel Wire.UpdateModel Wire.CapsProofs
-     Wire.S2CModel Wire.S2CProofs Region.RegionProofs Wire.InsideProofs Wire.ModelProofs Wire.S2CSound.
+     Wire.S2CModel Wire.S2CProofs Region.RegionProofs Wire.InsideProofs Wire.ModelProofs Wire.S2CSound Scale.ScaleQ Wire.RunProofs.
 Import ListNotations.
 Local Open Scope Z_scope.
 
@@ -263,6 +263,51 @@ Example C03_rects_inside_nonvacuous :
   rgn_iter false false req = [(0, 0, 4, 4); (15, 5, 20, 10)] /\ Forall r16q [(3, 3, 0, 4); (15, 5, 100, 100); (0, 0, 4, 4)] /\
   snap_ok (mkSnap (rgn_create_rect 0 0 20 10) req rgn_empty 0 0 0 0 0 0 None 0 20 10 50 48 48 1 32 0 0).
 Proof. exact rects_inside_example. Qed.
+
+(* ---- C03_rects_inside_scaled: SCALED clients.  rfbSendFramebufferUpdate maps every region rectangle with
+   rfbScaledCorrection (exact geometry Scale/ScaleQ.v: [correctionQ]; that the double arithmetic of scale.c agrees
+   with it is C17's tie) before counting and encoding it.  Every rectangle then emitted -- after the count stage
+   the model runs, bounding-box coalescing included -- lies inside the scaled screen (tw x th), i.e. the size told
+   to that client by ResizeFrameBuffer / NewFBSize (C17 size_told).  The containment of the mapped rectangle is
+   C17's lemma corr1Q_inside (Scale/ScaleProofs.v), used, not re-proved.  (Scaled clients get no CopyRect since
+   b141ef8, hence the empty copy list.) *)
+Theorem C03_rects_inside_scaled : forall g c1 s sn tw th pref lastrect cmw cmh maxrects npseudo n region' lm keep,
+  1 <= sn_fbw sn -> 1 <= sn_fbh sn -> 1 <= tw -> 1 <= th -> 1 <= cmw -> 1 <= cmh ->
+  WF (sn_mod sn) -> WF (sn_req sn) -> WF (sn_copy sn) -> within (sn_fbw sn) (sn_fbh sn) (sn_req sn) ->
+  announce_sel g pref lastrect cmw cmh maxrects
+               (map (scale_rect (sn_fbw sn) (sn_fbh sn) tw th) (pl_region (plan_regions c1 s sn))) [] npseudo
+    = Some (n, region', lm, keep) ->
+  Forall (rect_in_screen tw th) region' /\
+  Forall (fun e => match e with
+                   | EmKnown l => Forall (rect_in_screen tw th) l
+                   | EmData r => rect_in_screen tw th r
+                   | EmTrap => False end)
+         (emit_region pref lastrect cmw cmh region').
+Proof. exact rects_inside_scaled. Qed.
+
+Example C03_rects_inside_scaled_nonvacuous :
+  scale_rect 100 50 33 16 (98, 48, 2, 2) = (32, 15, 1, 1) /\ scale_rect 100 50 33 16 (0, 0, 100, 50) = (0, 0, 33, 16) /\
+  scale_rect 100 50 33 16 (10, 10, 1, 1) = (3, 3, 1, 1).
+Proof. repeat split; reflexivity. Qed.
+
+(* ---- C03_resize_run: the resize clause at RUN level.  State: screen size, size last told to the client,
+   capability state.  Events: the application resizes (rfbNewFramebuffer: pending flag for a client with
+   NewFBSize), an update runs (with modifiedRegion / copyRegion inside the current screen -- what
+   rfbNewFramebuffer establishes; requestedRegion may still hold rectangles of the OLD geometry).
+   For a client that enabled NewFBSize or ExtDesktopSize, along EVERY run: an update is either exactly one
+   rectangle, the size message carrying the CURRENT screen size (after which that is the size told), or all its
+   pixel and copy rectangles lie inside the size last told; the invariant "the client knows the screen size or
+   the size message is pending" is preserved. *)
+Theorem C03_resize_run : forall g evs st, rinv st -> run_ok g st evs.
+Proof. exact run_resize_inside. Qed.
+
+Example C03_resize_run_nonvacuous :
+  rinv ex_run_state /\ ev_ok ex_run_state (EvResize 24 12) /\
+  ev_ok (rstep (mkCfg false false false false true true true true) ex_run_state (EvResize 24 12)) (EvUpdate ex_run_snap) /\
+  snd (model_update (mkCfg false false false false true true true true)
+         (r_caps (rstep (mkCfg false false false false true true true true) ex_run_state (EvResize 24 12))) ex_run_snap)
+  = USent 1 [PH (0, 0, 24, 12, enc_NewFBSize)] false false.
+Proof. exact ex_run. Qed.
 
 (* ---- refutations: the faithful model violates the full statement; each witness is replayed on
    the real library by props/C03.py (findings F4, F4b, F5, F6) ---- *)
